@@ -71,7 +71,8 @@ CHECKS['C13'] = dict(
          "first, invariant checked after every completed step - labelled bounded.",
     note="Trusted: pyvc, z3. Three lemmas are bounded (enumerated lengths), reported separately. ProofState-level "
          "clauses are explored, not proved (heap of aliased Proof/ProofItem objects). Four findings repaired "
-         "(revert_intro, exists_elim, intros with several variables, apply_tactic up to eta).",
+         "(revert_intro, exists_elim, intros with several variables, apply_tactic up to eta) and later ones "
+         "(DESIGN 6). Known finding recorded: a step argument with a type instantiation is exported without it.",
     technique="contract-based deductive verification of the identifier arithmetic (ast->z3, sequence theory), "
               "bounded enumeration for three lemmas, run-time contract on ProofState over generated edit sequences",
     design='4 C13')
@@ -125,7 +126,8 @@ _bounded('C07',
          "Unicode, two line widths, cold and after other terms) and parsed back; types, sequents, instantiations, type "
          "instantiations and exported proof steps (15 argument signatures, 4 highlight x Unicode settings) likewise.",
          "No deductive part: the parser is a Lark table generated from a grammar string. Findings repaired: exported "
-         "subst_type / apply_induct steps and empty instantiations did not parse back.", '4 C07')
+         "subst_type / apply_induct steps and empty instantiations did not parse back. Known finding recorded: an "
+         "instantiation argument is exported without its type instantiation.", '4 C07')
 _bounded('C09',
          "Bounded stand-in (not a proof): first_order_match on generated first-order and higher-order patterns "
          "against instances and unrelated targets: the result instantiates the pattern to the target up to "
